@@ -69,6 +69,8 @@ struct Ctl {
     /// quarantined objects: address -> original object pointer
     dead: HashMap<usize, NonNull<CaoLangObject>>,
     dead_order: Vec<usize>,
+    /// original byte lengths of quarantined strings (their visible length is set to 0)
+    dead_len: HashMap<usize, usize>,
 }
 
 thread_local! {
@@ -94,6 +96,7 @@ pub fn reset() {
         c.quarantine = false;
         c.dead.clear();
         c.dead_order.clear();
+        c.dead_len.clear();
     });
     FORCE_GC.with(|f| *f.borrow_mut() = None);
     ON_ALLOC.with(|f| *f.borrow_mut() = None);
@@ -270,13 +273,16 @@ pub(crate) fn quarantine(obj: NonNull<CaoLangObject>) -> bool {
     if !on {
         return false;
     }
+    let mut string_len = None;
     unsafe {
         let o = &mut *obj.as_ptr();
         match &mut o.body {
             CaoLangObjectBody::Table(t) => t.verif_poison(Value::Integer(POISON)),
             CaoLangObjectBody::String(s) => {
-                // overwrite the payload, keep the length (and with it the layout for the release)
+                // overwrite the payload and make the string read as empty; the length (and with
+                // it the layout for the release) is kept aside and restored by take_quarantined
                 std::ptr::write_bytes(s.ptr.as_ptr(), b'?', s.len);
+                string_len = Some(std::mem::replace(&mut s.len, 0));
             }
             CaoLangObjectBody::Function(f) => f.handle = Default::default(),
             CaoLangObjectBody::NativeFunction(f) => f.handle = Default::default(),
@@ -292,6 +298,9 @@ pub(crate) fn quarantine(obj: NonNull<CaoLangObject>) -> bool {
         let addr = obj.as_ptr() as usize;
         c.dead.insert(addr, obj);
         c.dead_order.push(addr);
+        if let Some(len) = string_len {
+            c.dead_len.insert(addr, len);
+        }
     });
     true
 }
@@ -303,6 +312,15 @@ pub(crate) fn take_quarantined() -> Vec<NonNull<CaoLangObject>> {
         let mut c = c.borrow_mut();
         let order = std::mem::take(&mut c.dead_order);
         let mut dead = std::mem::take(&mut c.dead);
+        for (addr, len) in std::mem::take(&mut c.dead_len) {
+            if let Some(obj) = dead.get(&addr) {
+                unsafe {
+                    if let CaoLangObjectBody::String(s) = &mut (*obj.as_ptr()).body {
+                        s.len = len;
+                    }
+                }
+            }
+        }
         order
             .into_iter()
             .filter_map(|a| dead.remove(&a))
